@@ -1,6 +1,7 @@
 CONSTANTS
   Depth = 2
   Wide = FALSE
+  Thin = 1
   Export = TRUE
 SPECIFICATION Spec
 INVARIANT TypeOK
